@@ -161,6 +161,12 @@ func Locate(base, ref string) (docURL, ptr string, err error) {
 	frag := tu.Fragment
 	tu.Fragment = ""
 	tu.RawFragment = ""
+	if tu.Scheme == "file" {
+		// a local file has no query: `x.json?rev=2` is the file x.json (C11 states it for the root
+		// location; the loader is asked for the file without the query)
+		tu.RawQuery = ""
+		tu.ForceQuery = false
+	}
 	return tu.String(), frag, nil
 }
 
